@@ -29,6 +29,7 @@ THEOREMS = [
 ]
 TABLE_OBLIGATIONS = [
     "Ural.Props.C17.html_patterns_ascii_determined",
+    "Ural.Props.C17.url_in_html_exact_classes_ascii",
     "Ural.Props.C17.html_patterns_flags",
     "Ural.Props.C17.html_patterns_twins",
     "Ural.Props.C17.html_patterns_shape",
@@ -45,7 +46,9 @@ RULE = (
     "to canonicalization, duplicates (also up to canonicalization), entity-encoded delimiters "
     "(&amp; &#x2F; &#47;), IDN. Every case is run as str AND as UTF-8 bytes through "
     "urls_from_html and, for each of the 8 combinations of canonicalize / unique / "
-    "strip_fragment, through links_from_html (model vs implementation: 18 lines per case; "
+    "strip_fragment, through links_from_html (model vs implementation: 19 lines per case, the "
+    "first being a three-way comparison of the match spans of URL_IN_HTML_RE: real re / generic "
+    "interpreter of Py/Re.lean on the regenerated term / hand-written scanner; "
     "the model gets urljoin / is_url / canonicalize_url / PROTOCOL_RE as tables computed with "
     "the real functions), and through the oracle. Order: regression corpus, then every "
     "document of 1 piece and of 2 pieces over the core inventory (bases rotating), then seeded "
@@ -64,7 +67,7 @@ TRUSTED = [
     "urljoin, is_url, canonicalize_url, PROTOCOL_RE.match are PARAMETERS of the links model (theorems hold for all functions); in the correspondence their values are computed by the harness with the real functions and shipped as tables",
     "html.unescape is a parameter of the theorems; the driver implements &amp; &lt; &gt; &quot; &apos; and numeric references with ';' and the stream only keeps documents on whose raw hrefs CPython's html.unescape agrees with that subset",
     "UTF-8: Lean core's String.utf8EncodeChar / ByteArray.utf8Decode? (round trip proved in core) stand for CPython's codec; the driver checks utf8(doc) against the bytes CPython produced for every case",
-    "CPython's re engine (backtracking search semantics) is what the hand-written scanners are compared with, not verified",
+    "CPython's re engine (backtracking search semantics) is what the hand-written scanners are compared with, not verified; for URL_IN_HTML_RE the generic backtracking interpreter of Py/Re.lean runs on the regenerated term next to the hand scanner on every case (three-way); SCRIPT_TAG_RE (\\b, look-ahead) and the bytes twins have no translation in that framework (two-way)",
 ]
 ASSUMPTIONS = [
     "documents are str without lone surrogates, bytes documents are their UTF-8 encoding (valid UTF-8)",
@@ -537,8 +540,40 @@ def _links(case, as_bytes, combo):
     return _collect(g)
 
 
+def _spans(doc):
+    sp = [list(mt.span()) for mt in _m()["ufh"].URL_IN_HTML_RE.finditer(doc)]
+    return {"hand": sp, "interp": sp}
+
+
+_translatable = []
+
+
+def _is_translatable():
+    """can the shared regex framework translate URL_IN_HTML_RE (no look-around, no \\b, str)?
+    if not, the third leg of the comparison is dropped (two-way: real re / hand scanner)"""
+    if not _translatable:
+        try:
+            import sys
+
+            if lib.HARNESS not in sys.path:
+                sys.path.insert(0, lib.HARNESS)
+            from gen_tables.regex import PatternFile
+
+            PatternFile("Ural.Gen.Scratch").add("URL_IN_HTML_RE", _m()["ufh"].URL_IN_HTML_RE)
+            _translatable.append(True)
+        except Exception:  # noqa
+            _translatable.append(False)
+    return _translatable[0]
+
+
+def canon(op, out):
+    if op.get("f") == "anchor_spans" and isinstance(out, dict) and not _is_translatable():
+        return {"hand": out.get("hand")}
+    return out
+
+
 def impl(case):
-    out = [_urls(case["doc"]), _urls(case["doc"].encode("utf-8"))]
+    out = [_spans(case["doc"]), _urls(case["doc"]), _urls(case["doc"].encode("utf-8"))]
     for combo in COMBOS:
         for as_bytes in (False, True):
             out.append(_links(case, as_bytes, combo))
@@ -659,6 +694,7 @@ def ops(case):
         if isinstance(x, list):
             hrefs.extend(x)
     out = [
+        {"f": "anchor_spans", "doc": doc},
         {"f": "urls_from_html", "doc": doc},
         {"f": "urls_from_html_bytes", "doc": doc, "bytes": list(doc.encode("utf-8"))},
     ]
